@@ -35,6 +35,16 @@ CHECKS = {
    technique="TLA+ state machine of register files with documented name/alias tables (Registers.tla, RegTables.tla) model-checked by TLC; complete replay of every state on the real CpuContext / MinidumpContext incl. raw-field ground truth",
    text="The space is finite, so the check is complete within MaxSets writes: TLC enumerates every context type and every short history of set-by-name operations over all register names, documented aliases and unknown names, checks that aliases agree, the last write wins, sp/ip names are distinct registers and no slot is listed twice, and each state is executed on the real code: raw struct fields (ground truth), reads through every name and alias with and without validity, dedicated sp/ip accessors, memoization, singleton validity sets through aliases in both directions, unknown names under three validity forms (absence, no panic) and the two enumerations.",
    note="Trusted: TLC, the hand-entered documented tables (tools/gen_registers_tla.py), raw_slot() in replay_registers.rs. Four open known findings (SPARC window aliases) are listed in known-findings.json."),
+ "C11": dict(
+   level="model_checking", design_ref="DESIGN.md section 5 'C11'",
+   technique="TLA+ declarative (linear-scan) specification of fill_symbol (SymLookup.tla) with C11 predicates checked by TLC over every symbol file built from candidate record pools; every file rendered, parsed by the real parser and queried through the real fill_symbol at every address under three module bases",
+   text="The lookup result is specified without any search structure: FUNC cover, PUBLIC fallback with FUNC cut-off, STACK WIN parameter-size precedence, line records with dropped zero-size entries, inline chains to depth 3 incl. a multi-range INLINE record. TLC builds every file of up to MaxRecs records, checks that bases never exceed the address, that the function covers it or is the nearest PUBLIC, and that inline frames nest; the real parser + fill_symbol must return exactly the specified FrameSymbolizer calls for each (file, address, module base).",
+   note="Trusted: TLC, SymLookup.tla, the renderer/recorder in replay_symlookup.rs. Records of one kind do not overlap in generated files (overlap policy is C08). Depth > 3 chains and random large files are not covered."),
+ "C17": dict(
+   level="model_checking", design_ref="DESIGN.md section 5 'C17'",
+   technique="TLA+ string-level specification of the lookup path builders and of the containment predicate (Paths.tla); TLC enumerates module names as token sequences; the real builders' outputs are recorded and TLC evaluates Contained on each real output (Trace_Paths.tla)",
+   text="TLC proves on the specified builders that every produced path is contained (or no path is produced) for every name of up to MaxTok tokens over an alphabet with both separators, '.', '..', ':', drive letters and extensions; the harness gives each name (and seeded hostile names) to the real breakpad_sym / lookup(kind) / code-info / extra-debuginfo / binary / mozilla-CAB builders, and TLC evaluates the containment predicate on the real strings and compares them with the documented layout (difference = drift).",
+   note="Trusted: TLC, Paths.tla (string functions on TLC strings), record_paths.rs. Joining onto directories/URLs is not executed here (http.rs join sites are observed by C16's file-system scan). A fix: commit (78a433e) repaired the unsafe-leaf classes."),
 }
 
 NA_DEFAULT = "check not built yet (work in progress; DESIGN.md section 5 has the planned specification)"
